@@ -544,7 +544,7 @@ theorem beginWait_st (s : AState) (o h k j) :
   · rename_i hj
     exact ⟨_, rfl, .inl ⟨by simpa using hj, rfl⟩⟩
 
-theorem plan_join (w hk o k) : (plan w hk o k).join = isJoinKind k := by cases k <;> rfl
+theorem plan_join06 (w hk o k) : (plan w hk o k).join = isJoinKind k := by cases k <;> rfl
 
 theorem plan_slots (w hk o k) :
     (match (plan w hk o k).pl with
@@ -570,7 +570,7 @@ theorem stepBegin_slots {w s o h k s'} (hs : stepBegin w s o h k = some s') :
     · split at hs
       · simp only [Option.some.injEq] at hs; subst hs
         exact ⟨fun _ h => h, fun _ h => h, fun _ h => .inl h, fun _ h => .inl h, _, rfl, rfl, by simp⟩
-      · have hpj := plan_join w hk o k
+      · have hpj := plan_join06 w hk o k
         have hps := plan_slots w hk o k
         cases hpl : (plan w hk o k).pl with
         | none =>
@@ -605,7 +605,7 @@ theorem stepBegin_slots {w s o h k s'} (hs : stepBegin w s o h k = some s') :
 
 /-! ### The invariant (for traces with fresh operation ids) -/
 
-structure QInv (s : AState) (u : List Nat) : Prop where
+structure QInv06 (s : AState) (u : List Nat) : Prop where
   kind : ∀ r ∈ s.ops, stKindOk r.st r.kind = true
   skC : ∀ o ∈ slotsC s, ∀ r ∈ s.ops, r.o = o → r.kind.isCall = true
   skP : ∀ o ∈ slotsP s, ∀ r ∈ s.ops, r.o = o → r.kind = .ping
@@ -621,12 +621,12 @@ theorem stepCdrop_phase {s o s'} (hs : stepCdrop s o = some s') : s'.phase = s.p
   · simp at hs
   · split at hs <;> (simp at hs; subst hs; simp)
 
-theorem qinv_init (cfg : Cfg) (h0 : Nat) (k0 : HKind) : QInv (AState.init cfg h0 k0) monUniq.init := by
+theorem qinv06_init (cfg : Cfg) (h0 : Nat) (k0 : HKind) : QInv06 (AState.init cfg h0 k0) monUniq.init := by
   refine ⟨?_, ?_, ?_, ?_, ?_, rfl, doneQ_init _ _ _⟩ <;>
     simp [AState.init, slotsC, slotsP, curSlotOf, qC, qP, Chan.init]
 
-theorem qinv_step (w : Wiring) {s s' : AState} {u u' : List Nat} {l : Label} (hi : QInv s u)
-    (hs : step w s l = some s') (hu : monUniq.step u l = some u') : QInv s' u' := by
+theorem qinv06_step (w : Wiring) {s s' : AState} {u u' : List Nat} {l : Label} (hi : QInv06 s u)
+    (hs : step w s l = some s') (hu : monUniq.step u l = some u') : QInv06 s' u' := by
   have hitem := itemOk_step hs hi.item
   have hdq := doneQ_step hs hi.dq
   by_cases hedge : l.isOpEdge = true
@@ -748,7 +748,7 @@ theorem qinv_step (w : Wiring) {s s' : AState} {u u' : List Nat} {l : Label} (hi
 /-! ### Nothing hangs on a terminated actor -/
 
 /-- once the loop task is gone every recorded operation can return -/
-theorem retExpect_isSome_of_done {s : AState} {u : List Nat} (hq : QInv s u) (ht : TermInv s)
+theorem retExpect_isSome_of_done {s : AState} {u : List Nat} (hq : QInv06 s u) (ht : TermInv s)
     (hd : s.isDone = true) {r : OpRec} (hr : r ∈ s.ops) : (s.retExpect r).isSome = true := by
   have hk := hq.kind r hr
   obtain ⟨_, hqueue, hparked⟩ := hq.dq hd
@@ -781,7 +781,7 @@ theorem retExpect_isSome_of_done {s : AState} {u : List Nat} (hq : QInv s u) (ht
 structure C06qInv (c : MonCtx) (s : AState) (σ : C06St) (u : List Nat) : Prop where
   f : Flags06 c s σ
   t : TermInv s
-  q : QInv s u
+  q : QInv06 s u
 
 theorem c06q_step (w : Wiring) (hw : w.notifyAfterStopped = true) (c : MonCtx) {s s' : AState} {σ : C06St}
     {u u' : List Nat} {l : Label} (hi : C06qInv c s σ u) (hs : step w s l = some s')
@@ -822,7 +822,7 @@ theorem c06q_step (w : Wiring) (hw : w.notifyAfterStopped = true) (c : MonCtx) {
           simp [hpend]
         · simp at hs
   exact ⟨next06 c σ l, by simp [monC06q, hbad],
-    ⟨flags06_step w c hi.f hs, termInv_step w hw hs hi.t, qinv_step w hi.q hs hu⟩⟩
+    ⟨flags06_step w c hi.f hs, termInv_step w hw hs hi.t, qinv06_step w hi.q hs hu⟩⟩
 
 theorem c06q_run (w : Wiring) (hw : w.notifyAfterStopped = true) (c : MonCtx) :
     ∀ (ls : List Label) (s s' : AState) (σ : C06St) (u : List Nat), C06qInv c s σ u →
@@ -848,7 +848,7 @@ theorem c06q_run (w : Wiring) (hw : w.notifyAfterStopped = true) (c : MonCtx) :
 theorem C06q_holds (w : Wiring) (hw : w.notifyAfterStopped = true) (c : MonCtx) (ls : List Label) (s : AState)
     (hr : run w (AState.init c.cfg c.h0 c.k0) ls = some s) (huniq : uniqueBegins ls = true) :
     (monC06q c).ok ls = true :=
-  c06q_run w hw c ls _ s _ _ ⟨(c06_init c).f, termInv_init _ _ _, qinv_init _ _ _⟩ hr huniq
+  c06q_run w hw c ls _ s _ _ ⟨(c06_init c).f, termInv_init _ _ _, qinv06_init _ _ _⟩ hr huniq
 
 /-- the hypothesis is satisfiable and the monitor non-trivial -/
 example : uniqueBegins c06Example = true := by decide
